@@ -194,3 +194,64 @@ def rich_sdl(rng, *, unknown_scalars=True):
         lines.append("type %s {\n%s\n}" % (mn, "\n".join(f"  {f}{args()}: {out_ref()}" for f in mfs)))
     head = f"schema {{ query: {qn}" + (f" mutation: {mn}" if has_m else "") + " }"
     return head + "\n" + "\n".join(lines) + "\n", {"scalars": scalars, "query": qn, "mutation": mn if has_m else None}
+
+
+# ---- schemas exercising the built-in scalar strategies ---------------------------------------------------------------
+
+SCALAR_DEFAULTS = {"Long": "42", "BigInt": "-7", "Date": '"2020-02-29"', "Time": '"01:02:03Z"',
+                   "DateTime": '"2020-02-29T01:02:03Z"', "IP": '"::1"', "IPv4": '"10.0.0.1"', "IPv6": '"1::"',
+                   "UUID": '"00000000-0000-4000-8000-000000000000"'}
+
+
+def scalar_sdl(rng):
+    """SDL whose arguments are (almost) only built-in extra scalars, in every input position: plain / non-null argument,
+    list item, nested list, input-object field, nested input object, with acceptable schema defaults.
+    returns (sdl, info) like rich_sdl"""
+    scalars = rng.sample(EXTRA_SCALARS, rng.randint(2, 5))
+    if "Long" not in scalars and rng.random() < 0.6:
+        scalars.append("Long")
+    lines = [f"scalar {s}" for s in scalars]
+
+    def wrap(base, depth=0):
+        r = rng.random()
+        if r < 0.3 and depth < 2:
+            inner = base + ("!" if rng.random() < 0.6 else "")
+            base = f"[{inner}]"
+            if rng.random() < 0.25:
+                base = f"[{base}]"
+        if rng.random() < 0.45:
+            base += "!"
+        return base
+
+    def typed(allow_input):
+        if allow_input and rng.random() < 0.3:
+            return wrap(f"In{rng.randrange(allow_input)}"), None
+        s = rng.choice(scalars) if rng.random() < 0.85 else rng.choice(["Int", "String", "ID"])
+        ty = wrap(s)
+        d = SCALAR_DEFAULTS.get(s) if ty == s and rng.random() < 0.25 else None
+        return ty, d
+
+    n_input = rng.randint(1, 2)
+    for i in range(n_input):
+        fs = []
+        for j in range(rng.randint(1, 3)):
+            ty, d = typed(i)
+            fs.append(f"  f{j}: {ty}" + (f" = {d}" if d else ""))
+        lines.append("input In%d {\n%s\n}" % (i, "\n".join(fs)))
+
+    def args():
+        parts = []
+        for j in range(rng.randint(1, 3)):
+            ty, d = typed(n_input)
+            parts.append(f"a{j}: {ty}" + (f" = {d}" if d else ""))
+        return "(" + ", ".join(parts) + ")"
+
+    lines.append("type T0 {\n  id: ID!\n  g0%s: %s\n}" % (args(), rng.choice(scalars + ["Int"])))
+    qfs = rng.sample(["get", "list", "find", "dup"], rng.randint(1, 2))
+    has_m = rng.random() < 0.7
+    mfs = rng.sample(["create", "update", "dup"], rng.randint(1, 2)) if has_m else []
+    out = lambda: rng.choice(["T0", "T0!", "[T0!]", "Int", rng.choice(scalars)])  # noqa: E731
+    lines.append("type Query {\n%s\n}" % "\n".join(f"  {f}{args()}: {out()}" for f in qfs))
+    if has_m:
+        lines.append("type Mutation {\n%s\n}" % "\n".join(f"  {f}{args()}: {out()}" for f in mfs))
+    return "\n".join(lines) + "\n", {"scalars": scalars, "query": "Query", "mutation": "Mutation" if has_m else None}
